@@ -221,6 +221,19 @@ def check_plate(b, p, key, rng):
                     b.V('C10', 'get_volumes_substance', key + (unit, 'list'),
                         f"{p.name}.get_volumes({pair}, {unit!r})[{r},{c}] = {out[1][r, c]!r}, contents give {float(exp):.12g}")
                     break
+    # no substance at all: nothing of nothing is in every well
+    if rng.random() < 0.3:
+        unit = rng.choice(VOL_UNITS)
+        empty = rng.choice([[], (), set()])
+        out = b.call(lambda: p.get_volumes(substance=empty, unit=unit))
+        b.stats['obs:get_volumes_empty_list'] += 1
+        if out[0] == 'ok' and any(float(out[1][r, c]) != 0 for (r, c) in cells):
+            b.V('C10', 'get_volumes_substance', key + (unit, 'empty-list'),
+                f"{p.name}.get_volumes({empty!r}, {unit!r}) = {out[1].flatten()[:4].tolist()}...: the volume of no substance at all is 0 in every well")
+        out = b.call(lambda: p.get_moles(list(empty), unit='umol'))
+        if out[0] == 'ok' and any(float(out[1][r, c]) != 0 for (r, c) in cells):
+            b.V('C10', 'get_moles', key + ('umol', 'empty-list'),
+                f"{p.name}.get_moles([], 'umol') = {out[1].flatten()[:4].tolist()}...: the amount of no substance at all is 0 in every well")
     # get_substances
     out = b.call(lambda: p.get_substances())
     b.stats['obs:plate_get_substances'] += 1
